@@ -17,6 +17,7 @@ struct Item {
   uint64_t id;
   uint32_t depth;
   uint32_t prio; // OBIM index
+  uint32_t rank; // urgency rank (ascending), see Program::rank_of
 };
 
 struct Quiet {
@@ -35,44 +36,58 @@ struct Program {
   int vaborts   = 0; // voluntary aborts allowed
   int conflicts = 1; // conflict detection on
   int threads   = 1;
-  int prio_mode = 0; // 0 = hash%8, 1 = depth (monotone: child > parent), 2 = depth/2
+  int prio_mode = 0; // see rank_of
   int descending = 0;
   int pia       = 0; // use per-iteration allocator
   int delay     = 0; // max scheduling points inside critical phases
+  int wide      = 0; // some items at the last inner level push > 64 children
 
-  uint32_t prio_of(uint64_t id, uint32_t depth) const {
-    uint32_t p;
+  // urgency rank of an item (smaller = more urgent); the worklist index is
+  // rank or, for descending order, 1000 - rank.  Index 0 (the index type's
+  // minimum) is reserved: OBIM's monotonic mode asserts that every pushed index
+  // is later than the initial one.
+  uint32_t rank_of(uint32_t parent_rank, bool is_root, uint64_t id) const {
+    uint64_t h = prf(seed, id, 7);
     switch (prio_mode) {
-    case 1:
-      p = depth;
-      break;
-    case 2:
-      p = depth * 3 + (uint32_t)(prf(seed, id, 7) % 3);
-      break;
-    default:
-      p = (uint32_t)(prf(seed, id, 7) % 8);
+    case 1: // dense, strictly later
+      return is_root ? 1 : parent_rank + 1;
+    case 2: // sparse, strictly later
+      return is_root ? 1 + (uint32_t)(h % 3) * 2 : parent_rank + 1 + (uint32_t)(h % 3);
+    case 3: { // sparse, equal or later
+      static const uint32_t D[] = {0, 0, 1, 3};
+      return is_root ? 1 + (uint32_t)(h % 3) * 2 : parent_rank + D[h % 4];
     }
-    // index 0 (the index type's minimum) is reserved: OBIM's monotonic mode
-    // asserts that every pushed index is later than the initial one
-    return descending ? 100 - p : p + 1;
+    default: // unordered
+      return 1 + (uint32_t)(h % 8);
+    }
   }
+  uint32_t index_of(uint32_t rank) const { return descending ? 1000 - rank : rank; }
   int nchildren(uint64_t id, uint32_t depth) const {
     if ((int)depth >= maxdepth || fanout == 0)
       return 0;
+    // the executor's push buffer has a fast path above 64 buffered items
+    if (wide && (int)depth == maxdepth - 1 && prf(seed, id, 6) % 6 == 0)
+      return 65 + (int)(prf(seed, id, 8) % 8);
     return (int)(prf(seed, id, 1) % (uint64_t)(fanout + 1));
   }
   Item child(const Item& p, int j) const {
     Item c;
-    c.id    = p.id * 8 + (uint64_t)(j + 1);
+    // ids are octal paths: root = r 7, child = parent d with d in 1..6 (unique
+    // decomposition at the last 7).  Children beyond the sixth (wide items,
+    // always leaves) live in a separate id space marked by bit 61.
+    c.id    = j < 6 ? p.id * 8 + (uint64_t)(j + 1)
+                    : (1ULL << 61) | (p.id << 7) | (uint64_t)j;
     c.depth = p.depth + 1;
-    c.prio  = prio_of(c.id, c.depth);
+    c.rank  = rank_of(p.rank, false, c.id);
+    c.prio  = index_of(c.rank);
     return c;
   }
   Item root(int i) const {
     Item r;
     r.id    = (uint64_t)(i + 1) * 8 + 7;
     r.depth = 0;
-    r.prio  = prio_of(r.id, 0);
+    r.rank  = rank_of(0, true, r.id);
+    r.prio  = index_of(r.rank);
     return r;
   }
   int nh_size(uint64_t id) const {
@@ -86,7 +101,7 @@ struct Program {
   // position (0..k) before which acquire the j-th child is pushed; k = after
   // the last acquire
   int push_pos(uint64_t id, int j, int k) const {
-    return (int)(prf(seed, id, 30 + j) % (uint64_t)(k + 1));
+    return (int)(prf(seed, id, 1000 + j) % (uint64_t)(k + 1));
   }
   int n_vaborts(uint64_t id) const {
     if (!vaborts || !conflicts || threads < 2)
